@@ -122,7 +122,8 @@ def check(mutdir, props, tier):
             print("== %s %s on mutant: rc=%d" % (p, tier, rc))
             print("\n".join(lines[:12]))
             for f in new:
-                os.remove(f)
+                if os.path.basename(f).startswith("new-"):  # only what the run itself saved
+                    os.remove(f)
             if bak is not None:
                 open(ev, "w").write(bak)
             elif os.path.exists(ev):
